@@ -698,3 +698,16 @@ package tree
 //@            (callarg(SetValue, 0, 2) == callres(GetBranchesHighesPrecedence) || (callres(GetEntry, 0, 1) && callarg(SetValue, 0, 2) == callres(getHighestPrecedenceValueOfBranch))) &&
 //@            callarg(SetValue, 0, 3) == (callres(GetEntry, 0, 1) && callres(getHighestPrecedenceValueOfBranch) <= callres(GetBranchesHighesPrecedence))
 //@   loop 1 invariant member_is_the_one_asked_about [C08]: called(SetValue) ==> callarg(SetValue, 0, 1) == callarg(GetEntry, 0, 1)
+
+// ---------------------------------------------------------------------------
+// C04: what a must expression sees of a leaf value. Every numeric kind of typed value is a number to the XPath machine
+// (a literal would compare as text: ". > 5" is false for every literal), booleans are booleans, the rest is its text.
+//@ func (*yangParserEntryAdapter).valueToDatum
+//@   props C04
+//@   nosafety the value and the elements of a leaf-list value come off the wire non-nil; only the kind of datum is claimed
+//@   ensures unsigned_is_a_number [C04]: istype(tv.Value, *sdcpb.TypedValue_UintVal) ==> called(NewNumDatum, 0) && result == callres(NewNumDatum, 0) && !called(NewLiteralDatum)
+//@   ensures signed_is_a_number [C04]: istype(tv.Value, *sdcpb.TypedValue_IntVal) ==> called(NewNumDatum, 1) && result == callres(NewNumDatum, 1) && !called(NewLiteralDatum)
+//@   ensures decimal_is_a_number [C04]: istype(tv.Value, *sdcpb.TypedValue_DecimalVal) ==> called(NewNumDatum, 2) && result == callres(NewNumDatum, 2) && !called(NewLiteralDatum)
+//@   ensures double_is_a_number [C04]: istype(tv.Value, *sdcpb.TypedValue_DoubleVal) ==> called(NewNumDatum, 3) && result == callres(NewNumDatum, 3) && callarg(NewNumDatum, 3, 0) == tv.GetDoubleVal() && !called(NewLiteralDatum)
+//@   ensures booleans_are_booleans [C04]: istype(tv.Value, *sdcpb.TypedValue_BoolVal) ==> called(NewBoolDatum) && result == callres(NewBoolDatum, 0) && callarg(NewBoolDatum, 0, 0) == tv.GetBoolVal()
+//@   loop 0 invariant true
